@@ -156,8 +156,11 @@ def assemble(unit, repo=None, mutate=None):
     """returns Assembled(text, items, ranges). `mutate`: optional (key, pattern, repl) applied to the
     *extracted raw text* before rules (self-test mutants)."""
     repo = repo or REPO
-    with open(os.path.join(unit['dir'], unit.get('template', 'template.rs')), encoding='utf-8') as f:
-        tmpl = f.read()
+    if unit.get('template_text') is not None:
+        tmpl = unit['template_text']          # generated by the unit from the repository's struct definitions
+    else:
+        with open(os.path.join(unit['dir'], unit.get('template', 'template.rs')), encoding='utf-8') as f:
+            tmpl = f.read()
     for name, pat, repl, doc, *fl in unit.get('extra_rules', []):
         R.named_regex(name, pat, repl, doc, fl[0] if fl else 0)
     items = {}
